@@ -2,7 +2,7 @@
 import re
 
 from .lib import PLUMBING, callee_allow, callers, closure_args_of_call, operand_local
-from .lib_c01 import (PRE_FIX_F3_EDITS, VALUE_PRESERVING, Renamed, access_path, bool_switch_of_call, conflict_loop, const_reach, enum_switches,
+from .lib_c01 import (PRE_FIX_F3_EDITS, VALUE_PRESERVING, Path, Renamed, access_path, bool_switch_of_call, conflict_loop, const_reach, enum_switches,
                       norm_path, outermost_fn, resolve_path, sources, version_param)
 from .lib_c01 import edge_is_rejecting as edge_rejects
 
@@ -13,7 +13,7 @@ TECHNIQUE = ("static analysis: access-path / slice provenance (SAME-SOURCE, CHAI
 LEVEL_TEXT = ("Decides, on every path of the type-checked MIR of the current tree, the structural clauses of C01: (R1) http_request_handle routes on the method, URI path and "
               "resolved version of the one request it then hands to the handler, and both task-mode arms invoke lookup_result.handler with a context whose endpoint metadata is "
               "lookup_result.endpoint; (R2) every field of the lookup answer comes from the single endpoint returned by find_handler_matching_version(methods-of-the-matched-node[METHOD], "
-              "request version) and `variables` is the map filled by the walk; (R3) per edge kind the walk compares / binds the request segment itself (only to_string/clone in between), "
+              "request version) and `variables` is the map filled by the walk; (R3) per edge kind the walk (driven by the segment iterator, or by a slice cursor over the segments whose every step skips exactly the segments it used) compares / binds the request segment itself (only to_string/clone in between), "
               "a wildcard receives the current segment followed by every remaining one in order (possibly none), and `node` is only ever advanced to the child of the edge just matched; "
               "(R4) insert and lookup normalise the method key identically; (R5) the only version predicate used for selection is ApiEndpointVersions::matches on the caller's version; "
               "(R6) the one insertion-ordered container is appended to only after every existing element was tested with overlaps_with and none overlapped, and (R6E2) overlaps_with is "
@@ -36,9 +36,15 @@ EXPLANATION = ("Rules over the MIR of server::http_request_handle (coroutine), s
                "(`get(k).and_then(|h| select(h, v))`, `match{..}.ok_or_else(..)?`) are the same switches as the corresponding match; the walk loop may be `while let` or `loop { let-else break }` "
                "(only the Some / None edges of the driving next() are used); the version predicate may be a closure handed to find/filter, a filter_map closure or an explicit "
                "loop with early return; the overlap test may be a loop or a find/position/any search; `!= All` may be written as ==, match or matches!; the sticky flag as `= true` under a test, `|=` or `a = a || b`; "
-               "private helpers that are not on tables/known_functions.txt are analysed inlined.")
+               "private helpers that are not on tables/known_functions.txt are analysed inlined (R2-R4 anchor on the function that builds RouterLookupResult: lookup_route, or - should the engine "
+               "not inline it - the one helper lookup_route hands its own self / method / version and into_iter(validated segments) to and whose answer it returns, each of which is then a checked instance); "
+               "`node.edges.as_ref()` is `&node.edges`; the conflict loop may run over the list seen as a slice (as_slice) inside an extracted helper; the Option-returning selection closure may be "
+               "`matches(..).then_some(x)` handed to filter_map / find_map; the walk may be driven by a slice cursor instead of an iterator: a `&[String]` local initialised with the whole result of "
+               "input_path_to_segments, tested with is_empty(), read with split_first()/first() (current segment), to_vec() (current and all remaining segments) and len(), and only ever reassigned `&cursor[n..]` at the "
+               "end of a step, where n is decided per edge kind (1, 1, len) - with the per-edge results carried out of the match in a step record and the (name, value) binding inserted once behind the match, "
+               "each value attributed to the arm it was built in by the definitions its data flow passes.")
 TRUSTED = ["rustc nightly MIR construction", "mirfacts extractor", "rules/engine.py (dominators, slices) and rules/lib_c01.py (access paths)",
-           "std BTreeMap/Vec/Iterator semantics (incl. Extend for Vec: appends every remaining item in order; once(a).chain(it).collect::<Vec<_>>(): a, then every remaining item of it, in order; find/position/any: apply the predicate to each item until it first holds)", "engine normalised view (combinator desugaring, helper inlining, jump threading)", "http crate accessors (Request::method/uri, Uri::path, Method::as_str)", "C05.E1/E2 (exact matches / overlaps_with tables)"]
+           "std BTreeMap/Vec/Iterator semantics (incl. Extend for Vec: appends every remaining item in order; once(a).chain(it).collect::<Vec<_>>(): a, then every remaining item of it, in order; find/position/any: apply the predicate to each item until it first holds; filter_map / find_map: keep / return the first of the Some payloads in order; bool::then_some(x): Some(x) iff true; slice split_first/first/to_vec/len/is_empty/Index<RangeFrom>: first element and rest / copy of all elements in order / element count / count == 0 / the suffix from n)", "engine normalised view (combinator desugaring, helper inlining, jump threading)", "http crate accessors (Request::method/uri, Uri::path, Method::as_str)", "C05.E1/E2 (exact matches / overlaps_with tables)"]
 
 VP = VALUE_PRESERVING
 TRYQ = [r"ops::Try::branch$"]
@@ -55,7 +61,7 @@ def _lr(ctx, R):
     lookup_route itself - private helpers are analysed inlined - unless the body was moved into a helper the engine does not inline (size limit);
     then the rules read that function and `_link` decides that lookup_route hands its own arguments to it and returns its answer."""
     lr = ctx.need_fn(ctx.dsn, R, LOOKUP)
-    built = [f for f in ctx.dsn.F.values() if f.aggregates(r"^router::RouterLookupResult$")]
+    built = [f for f in ctx.dsn.F.values() if list(f.aggregates(r"^router::RouterLookupResult$"))]
     if len(built) == 1 and built[0] is not lr and built[0].raw["kind"] != "Closure":
         return built[0]
     return lr
@@ -220,7 +226,8 @@ def r2_one_endpoint(ctx):
         return
     obb, ost = ok
     pres = access_path(lr, ost["rv"]["ops"][0], VP)
-    n_res = [(f.id, bb) for f in ctx.ds.F.values() for bb, i, st in f.aggregates(r"^router::RouterLookupResult$")]
+    # (plain view, where closures are separate bodies: the site counts for the named function it is written in - e.g. an and_then closure of lookup_route)
+    n_res = [(outermost_fn(ctx.ds, f).id, bb) for f in ctx.ds.F.values() for bb, i, st in f.aggregates(r"^router::RouterLookupResult$")]
     ctx.check(R, "one-RouterLookupResult-construction", len(n_res) == 1 and n_res[0][0] == lr.id, "aggregate sites of RouterLookupResult: %s" % n_res, lr)        # (lr = the function _lr found by this role)
     if not (pres.kind() == "agg" and pres.root[2].get("adt") == "router::RouterLookupResult"):
         ctx.lost(R, "Ok(RouterLookupResult{..}) in lookup_route (Ok payload is %r)" % pres)
@@ -408,8 +415,82 @@ def _vec_contributions(lr, rest_op):
                                                   r"vec::Vec::<T>::new$", r"vec::Vec::<T>::with_capacity$", r"vec::from_elem$", r"iter::Iterator::next$",
                                                   r"alloc::exchange_malloc$", r"boxed::Box::<T>::write$", r"mem::MaybeUninit"])
         seeds = [bb for c, bb, t in seed.calls(r"iter::Iterator::next$")]
+    pushes, extends, foreign = _vec_users(lr, pr)
+    foreign = [b[0] for b in seed_bad] + foreign
+    return pr, seeds, pushes, extends, foreign, chains
+
+
+SLICE_FIRST = r"slice::<impl \[T\]>::(split_first|first)$"
+SLICE_TO_VEC = r"slice::<impl \[T\]>::to_vec$"
+SLICE_LEN = r"slice::<impl \[T\]>::len$"
+
+
+def _slice_cursor(lr):
+    """The walk written over a slice cursor instead of an iterator: a `&[String]` local C that is (i) initialised with a view (as_slice / deref) of the Ok
+    payload of input_path_to_segments, (ii) otherwise only ever assigned `&C[n..]`, and (iii) tested by one `C.is_empty()` whose false edge enters the
+    step and whose true edge leaves the walk.  Returns {cursor, init: [def bb], advances: [(def bb, n operand)], other: [..], guard_bb, sw, body, done} or None."""
+    found = []
+    for l, ds in sorted(lr.defs().items()):
+        if l <= lr.argc or len(ds) < 2 or not lr.local_ty(l).endswith("[std::string::String]"):
+            continue
+        cur = {"cursor": l, "init": [], "advances": [], "other": []}
+        for bb, k, n in ds:
+            if k == "assign" and not n["pl"]["p"]:
+                srcs = sources(lr, n["rv"].get("op") or n["rv"].get("pl") or {"l": l, "p": []}, VP + TRYQ + [r"vec::Vec::<T, A>::as_slice$"], stop={l})
+            elif k == "call" and not n["dest"]["p"]:
+                srcs = [Path(lr, ("call", l, n.get("callee") or "<indirect>", bb, n), [], [])]        # (the cursor is the call's destination itself)
+            else:
+                cur["other"].append("bb-def:%s" % k)
+                continue
+            for q in srcs:
+                if q.is_call(r"^router::input_path_to_segments$") and q.npath() == ["+", "0"] and \
+                        not [c for c in q.call_names() if not re.search(r"as_slice$|Try::branch$|" + VIEW, c)]:
+                    cur["init"].append(bb)
+                    continue
+                if q.is_call(r"ops::Index::index$") and not q.path and not q.calls and len(q.call()[2]["args"]) == 2:
+                    it = q.call()[2]
+                    a0 = access_path(lr, it["args"][0], VP)
+                    a1 = access_path(lr, it["args"][1], [])
+                    if a0.kind() == "local" and a0.root[1] == l and not a0.path and a1.kind() == "agg" and a1.root[2].get("adt") == "std::ops::RangeFrom" and not a1.path:
+                        cur["advances"].append((bb, a1.root[2]["ops"][0], q.call()[1]))
+                        continue
+                cur["other"].append(repr(q))
+        if len(cur["init"]) == 1 and cur["advances"]:
+            found.append(cur)
+    if len(found) != 1:
+        return None
+    cur = found[0]
+    guards = []
+    for bb, t in lr.live_calls(r"slice::<impl \[T\]>::is_empty$"):
+        a = access_path(lr, t["args"][0], VP)
+        if a.kind() == "local" and a.root[1] == cur["cursor"] and not a.path:
+            guards.append((bb, t))
+    if len(guards) != 1:
+        return None
+    sw = bool_switch_of_call(lr, guards[0][0], guards[0][1])
+    if sw is None:
+        return None
+    cur["guard_bb"], cur["sw"], cur["done"], cur["body"] = guards[0][0], sw[0], sw[1], sw[2]
+    return cur
+
+
+def _on_cursor(lr, op, cur):
+    a = access_path(lr, op, VP)
+    return a.kind() == "local" and a.root[1] == cur["cursor"] and not a.path
+
+
+def _is_first(lr, p, cur):
+    """Access path p is the first element of the cursor's current slice: `C.split_first()` Some payload .0, or `C.first()` Some payload."""
+    if not p.is_call(SLICE_FIRST):
+        return False
+    want = ["+", "0", "0"] if p.root[2].endswith("split_first") else ["+", "0"]
+    return p.npath() == want and _on_cursor(lr, p.call()[2]["args"][0], cur)
+
+
+def _vec_users(lr, pr):
+    """Calls that take the vector at access path pr (a local) as their receiver: (pushes, extends, other callees)."""
     root = pr.root_local()
-    pushes, extends, foreign = [], [], [b[0] for b in seed_bad]
+    pushes, extends, foreign = [], [], []
     for bb, t in lr.live_calls():
         if not t["args"] or t is (pr.call() or [None, None, None])[2]:
             continue
@@ -425,7 +506,7 @@ def _vec_contributions(lr, rest_op):
             pass
         else:
             foreign.append(c)
-    return pr, seeds, pushes, extends, foreign, chains
+    return pushes, extends, foreign
 
 
 def r3_walk_integrity(ctx):
@@ -437,15 +518,25 @@ def r3_walk_integrity(ctx):
     if roles is None:
         return
     outer, inners, it_local = _segment_nexts(lr, roles.get("segments"))
+    cur = None
     if outer is None:
-        ctx.lost(R, "the Iterator::next call that drives the walk over input_path_to_segments' result")
-        return
-    obb, ot, _ = outer
-    oe = _some_edge(lr, ot)
-    if oe is None:
-        ctx.lost(R, "switch on the walk's next()")
-        return
-    osw, o_some, o_none = oe
+        # no iterator drives the walk: a slice cursor over the same segments may (every step then states how many segments it consumes)
+        cur = _slice_cursor(lr)
+        if cur is None:
+            ctx.lost(R, "the Iterator::next call that drives the walk over input_path_to_segments' result")
+            return
+        obb, osw, o_some, o_none = cur["guard_bb"], cur["sw"], cur["body"], cur["done"]
+    else:
+        obb, ot, _ = outer
+        oe = _some_edge(lr, ot)
+        if oe is None:
+            ctx.lost(R, "switch on the walk's next()")
+            return
+        osw, o_some, o_none = oe
+
+    def is_seg(p):
+        """p is the walk's current segment: the item of the driving next(), or the first element of the cursor's slice."""
+        return _is_first(lr, p, cur) if cur is not None else _is_segment(lr, p, obb)
     node = _node_local(lr)
     vmap = _variables_local(lr)
     if node is None or vmap is None:
@@ -480,25 +571,48 @@ def r3_walk_integrity(ctx):
     if len(lg) == 1:
         bb, t = lg[0]
         pm = access_path(lr, t["args"][0], VP)
-        pk = access_path(lr, t["args"][1], SEG_OK)
-        okl = pm.root_local() == node and pm.path == ["edges", "as Some", "0", "as Literals", "0"] and _is_segment(lr, pk, obb) and \
-            not [c for c in pk.call_names() if not re.search(r"ToString::to_string$|Clone::clone$|Deref::deref$|String::as_str$|AsRef::as_ref$|Borrow::borrow$", c)]
+        pk = access_path(lr, t["args"][1], SEG_OK + TRYQ)
+        okl = pm.root_local() == node and pm.path == ["edges", "as Some", "0", "as Literals", "0"] and is_seg(pk) and \
+            not [c for c in pk.call_names() if not re.search(r"ToString::to_string$|Clone::clone$|Deref::deref$|String::as_str$|AsRef::as_ref$|Borrow::borrow$|Try::branch$", c)]
         d = "get(%r, %r)" % (pm, pk)
         child_defs["Literals"] = ("get", bb, t)
-    ctx.check(R, "Literals:child-looked-up-by-segment", okl and not [1 for b, t in inserts if inarm(b)], d + "; no variable is bound in this arm", (lr, lg[0][0]) if lg else lr)
+    # a binding carried out of the arms as a value (`Option<(name, value)>` in a step record) and inserted once behind the match: every (key, value) the
+    # insert can receive is attributed to the arm it was built in (the multi-definition hops of its data flow lie in exactly one arm)
+    joined = [(bb, t) for bb, t in inserts if lr.edge_dominates(osw, o_some, bb) and not any(arm(k)(bb) for k in want_kinds)]
+    rows, stray_rows = {}, []
+
+    def arm_of(p):
+        ks = [k for k in want_kinds if any(arm(k)(hb) for _l, hb in p.hops)]
+        return ks[0] if len(ks) == 1 else None
+    if len(joined) == 1:
+        for what, op in (("key", joined[0][1]["args"][1]), ("val", joined[0][1]["args"][2])):
+            for q in sources(lr, op, VP + TRYQ, stop={node}):
+                k = arm_of(q)
+                if k is None:
+                    stray_rows.append("%s %r" % (what, q))
+                else:
+                    rows.setdefault(k, {"key": [], "val": []})[what].append(q)
+        ctx.check(R, "joined-binding-comes-from-the-arms", not stray_rows, "the one insert behind the edge match receives only (name, value) pairs built in the variable arms; anything else: %s" % stray_rows,
+                  (lr, joined[0][0]))
+    ctx.check(R, "Literals:child-looked-up-by-segment", okl and not [1 for b, t in inserts if inarm(b)] and "Literals" not in rows, d + "; no variable is bound in this arm", (lr, lg[0][0]) if lg else lr)
 
     # --- variable arms
     def var_arm(kind, want_variant):
         inarm = arm(kind)
         ai = [(bb, t) for bb, t in inserts if inarm(bb)]
-        if len(ai) != 1:
-            ctx.check(R, "%s:binds-one-variable" % kind, False, "BTreeMap::insert calls on `variables` in the %s arm: %d" % (kind, len(ai)), lr)
+        row = rows.get(kind)
+        if not ai and row and len(row["key"]) == 1 and len(row["val"]) == 1:
+            bb, t = joined[0]
+            pk, pv = row["key"][0], row["val"][0]
+        elif len(ai) != 1 or row:
+            ctx.check(R, "%s:binds-one-variable" % kind, False, "BTreeMap::insert calls on `variables` in the %s arm: %d; (name, value) pairs it hands to an insert behind the match: %s"
+                      % (kind, len(ai), row), lr)
             return None
-        bb, t = ai[0]
-        pk = access_path(lr, t["args"][1], VP)
+        else:
+            bb, t = ai[0]
+            pk, pv = access_path(lr, t["args"][1], VP), access_path(lr, t["args"][2], VP)
         okk = pk.root_local() == node and pk.path == ["edges", "as Some", "0", "as " + kind, "0"] and not [c for c in pk.call_names() if not re.search(r"Clone::clone$|" + VIEW, c)]
         ctx.check(R, "%s:key-is-the-edge's-variable-name" % kind, okk, "variables key is %r" % pk, (lr, bb))
-        pv = access_path(lr, t["args"][2], VP)
         okv = pv.kind() == "agg" and pv.root[2].get("adt") == "router::VariableValue" and pv.root[2].get("variant") == want_variant
         ctx.check(R, "%s:value-kind-is-%s" % (kind, want_variant), okv, "value bound is %s" % (pv.root[2].get("variant") if pv.kind() == "agg" else pv), (lr, bb))
         return (bb, t, pv) if okv else None
@@ -506,12 +620,22 @@ def r3_walk_integrity(ctx):
     vs = var_arm("VariableSingle", "String")
     if vs:
         bb, t, pv = vs
-        ps = access_path(lr, pv.root[2]["ops"][0], SEG_OK)
-        ctx.check(R, "VariableSingle:value-is-the-segment", _is_segment(lr, ps, obb) and
-                  not [c for c in ps.call_names() if not re.search(r"ToString::to_string$|Clone::clone$|ToOwned::to_owned$", c)],
+        ps = access_path(lr, pv.root[2]["ops"][0], SEG_OK + TRYQ)
+        ctx.check(R, "VariableSingle:value-is-the-segment", is_seg(ps) and
+                  not [c for c in ps.call_names() if not re.search(r"ToString::to_string$|Clone::clone$|ToOwned::to_owned$|Try::branch$", c)],
                   "String(..) payload is %r (want: the walk's current segment through to_string/clone only)" % ps, (lr, bb))
     vr = var_arm("VariableRest", "Components")
-    if vr:
+    if vr and cur is not None:
+        # slice cursor: the list is `C.to_vec()` - the current segment followed by every remaining one, in order (std: a copy of the whole slice) - and nothing else writes to it
+        bb, t, pv = vr
+        pr = access_path(lr, pv.root[2]["ops"][0], VP)
+        whole = pr.is_call(SLICE_TO_VEC) and not pr.path and not pr.calls and _on_cursor(lr, pr.call()[2]["args"][0], cur)
+        pushes, extends, foreign = _vec_users(lr, pr) if whole else ([], [], [])
+        ctx.check(R, "VariableRest:seeded-with-current-segment", whole and not foreign,
+                  "the wildcard's vector is %r of the walk's cursor (starts at the current segment): %s; foreign writers/callees: %s" % (pr, whole, foreign), (lr, bb))
+        ctx.check(R, "VariableRest:every-remaining-segment-pushed-in-order", whole and not pushes and not extends and not foreign,
+                  "the vector is a copy of the whole remaining slice and nothing is appended to it: %s" % (whole and not pushes and not extends), (lr, bb))
+    elif vr:
         bb, t, pv = vr
         pr, seeds, pushes, extends, foreign, chains = _vec_contributions(lr, pv.root[2]["ops"][0])
         ctx.check(R, "VariableRest:seeded-with-current-segment", seeds == [obb] and not foreign,
@@ -546,6 +670,35 @@ def r3_walk_integrity(ctx):
             dd.append("once(seed).chain(<the walk's iterator>: %s).collect()" % same_it)
         ctx.check(R, "VariableRest:every-remaining-segment-pushed-in-order", (okp and exhaust and not extends and not chains) or (oke and not chains) or okch,
                   "appended after the seed: %s; from the same iterator as the walk; the binding happens only after that iterator was exhausted: %s" % (dd, exhaust or oke or okch), (lr, bb))
+    if cur is not None:
+        # --- each step consumes exactly the segments it uses: one for a literal / single-variable edge, all of them for a wildcard
+        C = cur["cursor"]
+        nrows, nstray = {}, []
+        for dbb, n_op, ibb in cur["advances"]:
+            for q in sources(lr, n_op, VP + TRYQ, stop={node, C}):
+                k = arm_of(q)
+                if k is None:
+                    nstray.append(repr(q))
+                else:
+                    nrows.setdefault(k, []).append(q)
+        for kind in want_kinds:
+            qs = nrows.get(kind, [])
+            if kind == "VariableRest":
+                okn = len(qs) == 1 and qs[0].is_call(SLICE_LEN) and not qs[0].path and not qs[0].calls and _on_cursor(lr, qs[0].call()[2]["args"][0], cur)
+                wantd = "the length of the remaining slice"
+            else:
+                okn = len(qs) == 1 and qs[0].kind() == "const" and (qs[0].root[2].get("val") or {}).get("int") == 1 and not qs[0].path
+                wantd = "1"
+            ctx.check(R, "%s:step-consumes-what-it-uses" % kind, okn and not nstray, "after this edge the cursor skips %s segment(s) (want: %s); counts from no arm: %s"
+                      % ([(q.root[2].get("val") or {}).get("int", "?") if q.kind() == "const" else repr(q) for q in qs] or "no", wantd, nstray), lr)
+        adv_bbs = [dbb for dbb, _n, _i in cur["advances"]]
+        uses = [bb for bb, t in lr.live_calls(SLICE_FIRST + "|" + SLICE_TO_VEC + "|" + SLICE_LEN + r"|ops::Index::index$") if t["args"] and _on_cursor(lr, t["args"][0], cur)]
+        borrowed = [bb for bb, i, st in lr.stmts() if st["rv"]["rv"] in ("ref", "rawptr") and st["rv"].get("mut") and st["rv"]["pl"]["l"] == C]
+        okc = not cur["other"] and not borrowed and not lr.edge_dominates(osw, o_some, cur["init"][0]) and lr.dominates(cur["init"][0], obb) and \
+            all(lr.edge_dominates(osw, o_some, b) for b in adv_bbs) and osw not in lr.reachable(o_some, avoid=adv_bbs) and \
+            not any(u in lr.reachable(a, avoid=[obb]) for a in adv_bbs for u in uses)
+        ctx.check(R, "slice-cursor-integrity", okc, "the cursor starts as input_path_to_segments' whole result, is only ever assigned `&cursor[n..]` (other values: %s; &mut borrows: %d), once at the end "
+                  "of every step that goes round the loop, and the step reads it before that: %s" % (cur["other"], len(borrowed), okc), (lr, obb))
     # --- the value `node` advances to: every definition of the cursor, with every value it may receive (a `let next = match ..` result,
     # an Option unwrapped by `ok_or_else(..)?`, by a match or by let-else are all followed to the arm values)
     thru = VP + TRYQ + [r"Option::<T>::ok_or_else$", r"Option::<T>::ok_or$"]
@@ -1071,6 +1224,7 @@ SV = "dropshot/src/server.rs"
 REST_LOOP = "                    let mut rest = vec![segment];\n                    while let Some(segment) = all_segments.next() {\n                        rest.push(segment);\n                    }\n"
 SELECT_CALL = "find_handler_matching_version(\n            node.methods.get(&methodname).map(|v| v.as_slice()).unwrap_or(&[]),\n            version,\n        ) "
 
+SPLIT_CALL = "self.lookup_segments(method, segments.into_iter(), version)"
 FIND_SEL = "handlers.into_iter().find(|h| h.versions.matches(version))"
 
 SELFTEST = [
@@ -1212,6 +1366,42 @@ SELFTEST = [
     {"name": "walk-matches-root-edges-as-ref", "kind": "mutant", "expect": ["C01.R3"],
      "edits": [(RT, "            node = match &node.edges {\n                None => None,", "            node = match self.root.edges.as_ref() {\n                None => None,")],
      "why": "edges taken through Option::as_ref, but of the root instead of the node reached: every segment is matched against the first level of the trie"},
+    # ---- benign-C03-R12 (lookup_route = normalise, then hand everything to a private lookup_segments) with a defect at the hand-over; caught whether the
+    #      engine inlines the helper (the ordinary rules see one body) or not (the _link checks)
+    {"name": "split-lookup-drops-version", "kind": "mutant", "expect": ["C01.R2"], "patch": "benign/C03-R12/patch.diff",
+     "edits": [(RT, SPLIT_CALL, "self.lookup_segments(method, segments.into_iter(), None)")],
+     "why": "the second half of the split lookup never sees the request's version"},
+    {"name": "split-lookup-reverses-segments", "kind": "mutant", "expect": ["C01.R3"], "patch": "benign/C03-R12/patch.diff",
+     "edits": [(RT, SPLIT_CALL, "self.lookup_segments(method, segments.into_iter().rev(), version)")],
+     "why": "the walk receives the request's segments last to first"},
+    {"name": "split-lookup-other-method", "kind": "mutant", "expect": ["C01.R4"], "patch": "benign/C03-R12/patch.diff",
+     "edits": [(RT, SPLIT_CALL, "self.lookup_segments(&Method::GET, segments.into_iter(), version)")],
+     "why": "the method table is keyed with GET whatever the request's method"},
+    # ---- benign-C01-R9 (walk over a slice cursor, per-edge step record Hop{target, consumed, binding}) with a defect inside
+    {"name": "slice-walk-single-consumes-two", "kind": "mutant", "expect": ["C01.R3"], "patch": "benign/C01-R9/patch.diff",
+     "edits": [(RT, "                target,\n                consumed: 1,\n", "                target,\n                consumed: 2,\n")],
+     "why": "a single-segment variable edge makes the cursor skip the segment after the one it bound"},
+    {"name": "slice-walk-wildcard-consumes-one", "kind": "mutant", "expect": ["C01.R3"], "patch": "benign/C01-R9/patch.diff",
+     "edits": [(RT, "                    consumed: segments.len(),\n", "                    consumed: 1,\n")],
+     "why": "the wildcard binds every remaining segment but the walk goes on with the second of them"},
+    {"name": "slice-walk-wildcard-drops-current", "kind": "mutant", "expect": ["C01.R3"], "patch": "benign/C01-R9/patch.diff",
+     "edits": [(RT, "VariableValue::Components(segments.to_vec()),", "VariableValue::Components(segments[1..].to_vec()),")],
+     "why": "the wildcard's list misses the current segment"},
+    {"name": "slice-walk-wildcard-reversed", "kind": "mutant", "expect": ["C01.R3"], "patch": "benign/C01-R9/patch.diff",
+     "edits": [(RT, "VariableValue::Components(segments.to_vec()),", "VariableValue::Components(\n                            segments.iter().rev().cloned().collect(),\n                        ),")],
+     "why": "the wildcard's list holds the remaining segments last to first"},
+    {"name": "slice-walk-single-binds-last", "kind": "mutant", "expect": ["C01.R3"], "patch": "benign/C01-R9/patch.diff",
+     "edits": [(RT, "VariableValue::String(first.clone()),", "VariableValue::String(segments.last()?.clone()),")],
+     "why": "a single-segment variable receives the last segment of the path instead of the current one"},
+    {"name": "slice-walk-cursor-restarts", "kind": "mutant", "expect": ["C01.R3"], "patch": "benign/C01-R9/patch.diff",
+     "edits": [(RT, "            unmatched = &unmatched[hop.consumed..];", "            unmatched = &segments[hop.consumed..];")],
+     "why": "the cursor is re-derived from the whole path at every step: segments are matched again (or the walk never ends)"},
+    {"name": "slice-walk-binding-dropped", "kind": "mutant", "expect": ["C01.R3"], "patch": "benign/C01-R9/patch.diff",
+     "edits": [(RT, "                variables.insert(varname, value);", "                let _ = (varname, value);")],
+     "why": "the step's (name, value) pair never reaches the variables map"},
+    {"name": "slice-walk-literal-by-other-segment", "kind": "mutant", "expect": ["C01.R3"], "patch": "benign/C01-R9/patch.diff",
+     "edits": [(RT, "                .get(first)\n", "                .get(segments.last()?)\n")],
+     "why": "the literal child is looked up with the last segment of the path instead of the current one"},
     # ---------------------------------------------------------------- benign variants
     {"name": "benign-selection-find-map-then-some", "kind": "benign",
      "edits": [(RT, FIND_SEL, "handlers.into_iter().find_map(|candidate| candidate.versions.matches(version).then_some(candidate))")],
